@@ -367,6 +367,52 @@ VP_TARGET("codecs", codecs_random,
           "and base64 (standard, url-safe) in exactly-sized heap blocks; non-trivial = length mod 3 "
           "!= 0 or some byte >= 0x80");
 
+// ------------------------------------------------------------- long strings
+// Lengths around the widths of narrow counters (255/256, 511/512, 1023/1024, 4095/4096; 65535/65536 in the
+// thorough tier) and arbitrary lengths up to 1100: the content is a drawn pattern of 1..16 bytes repeated with
+// the block number mixed in, so the choice sequence stays short while every 256-byte block differs.
+static void codecs_long(Src &s, Case &c)
+{
+    size_t n;
+    switch (s.weighted({4, 3, 3, 2, 2, 1}))
+    {
+    case 0:
+        n = (size_t)s.range(250, 262);
+        break;
+    case 1:
+        n = (size_t)s.range(506, 518);
+        break;
+    case 2:
+        n = (size_t)s.range(65, 1100);
+        break;
+    case 3:
+        n = (size_t)s.range(1018, 1030);
+        break;
+    case 4:
+        n = (size_t)s.range(4090, 4102);
+        break;
+    default:
+        n = tier() ? (size_t)s.range(65530, 65542) : (size_t)s.range(120, 140);
+    }
+    size_t plen = (size_t)s.range(1, 16);
+    uint8_t pat[16];
+    for (size_t i = 0; i < plen; i++)
+        pat[i] = s.u8();
+    std::vector<uint8_t> x(n);
+    for (size_t i = 0; i < n; i++)
+        x[i] = (uint8_t)(pat[i % plen] + (uint8_t)(i / 64) * 37u);
+    c.log("n=%zu pattern=%s x[0..32)=%s", n, hexdump(pat, plen, 16).c_str(), hexdump(x.data(), n < 32 ? n : 32, 32).c_str());
+    c.nontrivial = n >= 255;
+    c.label(n < 255 ? "len<255" : n < 512 ? "len255..511" : n < 4096 ? "len512..4095" : n < 65535 ? "len4096.." : "len>=65535");
+    c.label(n % 3 == 0 ? "len%3=0" : n % 3 == 1 ? "len%3=1" : "len%3=2");
+    check_bytes(c, x.data(), n);
+}
+VP_TARGET("codecs_long", codecs_long,
+          "byte string of 65..4102 bytes (thorough: up to 65542) with lengths concentrated around 256, 512, 1024, 4096 "
+          "(65536), content = drawn 1..16 byte pattern varied per 64-byte block, through the same hexascii/base64 "
+          "oracles as 'codecs'; non-trivial = length >= 255 (beyond any one-byte counter)");
+
+
 // --------------------------------------------------------------- enumeration
 // quick:    all byte strings of length <= 2 over all 256 bytes, length 3..4 over
 //           {00,7F,80,FF,'='}, all 8-bit values (in every byte lane of the wider
